@@ -1,5 +1,5 @@
 // C19 correspondence harness: linework operations through the C API.
-//   c19 <stream> <seed> <n> <outbase>      stream = linref | oracle | oracle_multi | merge | node | node_fp | polygonize | sharedpaths
+//   c19 <stream> <seed> <n> <outbase>      stream = linref | oracle | oracle_multi | merge | node | node_fp | polygonize | sharedpaths | holeassign
 //   c19 replay <stream> <file>             re-run GEOS on the *input part* of each case line of <file>; prints "<case>\t<expect>" per line
 // Case line grammar (doubles = 16 hex digits):   lineset := k (n (x y)*n)*k
 //   linref      P lineset px py | I lineset d | N lineset f | S lineset f0 f1          expect = result bits
@@ -15,6 +15,10 @@
 //   node*       N mode lineset | ok lineset(out)  /  | threw                             expect = ok / threw
 //   polygonize  Y mode valid lineset | npoly (lineset(rings))* | dangles | cuts | invalid expect = ok
 //   sharedpaths H lineset | lineset | ok lineset(same) | lineset(opp)  /  | threw        expect = ok / threw
+//   holeassign  A lineset | lineset(shell rings) | nholes (lineset(the hole ring built from each of its start edges))*nholes
+//               the REAL polygonize::EdgeRing::findEdgeRingContaining on the rings PolygonizeGraph builds for the arrangement
+//               (dangles and cut edges removed as Polygonizer does); every hole ring is asked once per possible start edge
+//               (the start edge depends on the order / direction of the input lines).        expect = shell index or -1 per (hole, start)
 #include "common.h"
 #include <geos_c.h>
 #include <cstdarg>
@@ -32,6 +36,12 @@
 #include <geos/linearref/LengthLocationMap.h>
 #include <geos/linearref/LinearLocation.h>
 #include <geos/geom/LineSegment.h>
+#include <geos/geom/GeometryFactory.h>
+#include <geos/geom/LinearRing.h>
+#include <geos/geom/CoordinateSequence.h>
+#include <geos/operation/polygonize/PolygonizeGraph.h>
+#include <geos/operation/polygonize/PolygonizeDirectedEdge.h>
+#include <geos/operation/polygonize/EdgeRing.h>
 
 using namespace vh;
 
@@ -291,6 +301,65 @@ static CE runShared(const LineSet& a, bool ma, const LineSet& b, bool mb) {
     return r;
 }
 
+
+// ---- hole assignment: the real EdgeRing::findEdgeRingContaining, asked for every hole ring of the arrangement and every
+// start edge of that ring (EdgeRing::build(startDE) starts a ring at whichever of its directed edges comes first in the
+// graph, i.e. it depends on the order and direction of the input lines; the decision must not)
+static long st_ha_queries = 0, st_ha_assigned = 0, st_ha_firstShared = 0, st_ha_scanDecisive = 0, st_ha_holes = 0, st_ha_shells = 0, st_ha_candidates = 0;
+static Line ringCoordsOf(geos::operation::polygonize::EdgeRing* er) {
+    Line l; const geos::geom::LinearRing* r = er->getRingInternal(); if (!r) return l;
+    const geos::geom::CoordinateSequence* cs = r->getCoordinatesRO();
+    for (std::size_t i = 0; i < cs->getSize(); i++) l.push_back({cs->getX(i), cs->getY(i)});
+    return l;
+}
+static CE runHoleAssign(const LineSet& ls) {
+    using namespace geos::operation::polygonize; using geos::geom::LineString; using geos::geom::Geometry;
+    { LASTIN = "A " + tokSet(ls); } if (DRY) { CE r; r.c = LASTIN; r.e = "dry"; return r; }
+    std::vector<GEOSGeometry*> gs; for (auto& l : ls) if (l.size() >= 2) gs.push_back(mkLine(l));
+    CE r; r.c = "A " + tokSet(ls) + " | ";
+    {
+        const geos::geom::GeometryFactory* gf = geos::geom::GeometryFactory::getDefaultInstance();
+        PolygonizeGraph graph(gf);
+        for (auto g : gs) graph.addEdge(static_cast<const LineString*>(reinterpret_cast<const Geometry*>(g)));
+        std::vector<const LineString*> dangles, cuts; graph.deleteDangles(dangles); graph.deleteCutEdges(cuts);
+        std::vector<EdgeRing*> rings; graph.getEdgeRings(rings);
+        std::vector<EdgeRing*> shells, holes;
+        for (EdgeRing* er : rings) { er->computeValid(); if (!er->isValid()) continue; er->computeHole(); (er->isHole() ? holes : shells).push_back(er); }
+        LineSet shellCoords; for (EdgeRing* s : shells) shellCoords.push_back(ringCoordsOf(s));
+        r.c += tokSet(shellCoords) + " | " + std::to_string(holes.size());
+        st_ha_holes += (long) holes.size(); st_ha_shells += (long) shells.size();
+        for (EdgeRing* h : holes) {
+            const auto& edges = h->getEdges(); std::size_t m = edges.size();
+            LineSet variants; std::vector<long> answers;
+            for (std::size_t j = 0; j < m; j++) {
+                EdgeRing er(gf); for (std::size_t t = 0; t < m; t++) er.add(edges[(j + t) % m]);
+                EdgeRing* got = er.findEdgeRingContaining(shells);
+                long idx = -1; for (std::size_t k = 0; k < shells.size(); k++) if (shells[k] == got) idx = (long) k;
+                variants.push_back(ringCoordsOf(&er)); answers.push_back(idx);
+                st_ha_queries++; if (idx >= 0) st_ha_assigned++;
+                // distribution: how often does the choice of the test point matter?  (first vertex of the hole ring is also a vertex
+                // of a candidate shell whose envelope properly covers the hole's, and the first vertex NOT shared lies on the other side)
+                const geos::geom::LinearRing* hr = er.getRingInternal(); if (!hr) continue;
+                for (EdgeRing* s : shells) {
+                    const geos::geom::Envelope* se = s->getRingInternal()->getEnvelopeInternal(); const geos::geom::Envelope* he = hr->getEnvelopeInternal();
+                    if (se->equals(he) || !se->contains(he)) continue;
+                    st_ha_candidates++;
+                    const geos::geom::Coordinate& first = hr->getCoordinatesRO()->getAt<geos::geom::Coordinate>(0);
+                    if (!EdgeRing::isInList(first, s->getRingInternal()->getCoordinatesRO())) continue;
+                    st_ha_firstShared++;
+                    const geos::geom::Coordinate& scan = EdgeRing::ptNotInList(hr->getCoordinatesRO(), s->getRingInternal()->getCoordinatesRO());
+                    if (scan.isNull() || !s->isInRing(scan)) st_ha_scanDecisive++;
+                }
+            }
+            r.c += " " + tokSet(variants);
+            for (long a : answers) r.e += (r.e.empty() ? "" : " ") + std::to_string(a);
+        }
+        if (r.e.empty()) r.e = "none";
+    }
+    for (auto g : gs) GEOSGeom_destroy_r(H, g);
+    return r;
+}
+
 // ---------------------------------------------------------------- generators
 struct Gen {
     Rng& r; Out& out; bool reuseMode = false;
@@ -471,10 +540,9 @@ struct Gen {
     }
 
     // ---- planar lattice graphs for polygonizing: subset of unit edges (+ one diagonal per cell), chained through degree-2 nodes
-    CE polygonize() {
+    typedef std::pair<int, int> PN; typedef std::pair<PN, PN> PE;
+    void latticeEdges(std::vector<PE>& es) {
         int W = r.range(2, 5), Hh = r.range(2, 5);
-        typedef std::pair<int, int> N; typedef std::pair<N, N> E;
-        std::vector<E> es;
         int density = r.range(35, 90);
         for (int y = 0; y <= Hh; y++) for (int x = 0; x <= W; x++) {
             if (x < W && r.chance(density)) es.push_back({{x, y}, {x + 1, y}});
@@ -490,6 +558,33 @@ struct Gen {
             if (r.chance(30)) { out.count("poly_second_hole");                         // a second, separate inner ring, touching the first at (o+4,o+2)? no: at (o+5,o+1)..(o+5,o+2)
                 es.push_back({{o + 5, o + 1}, {o + 5, o + 2}}); es.push_back({{o + 5, o + 2}, {o + 4, o + 2}}); es.push_back({{o + 4, o + 2}, {o + 5, o + 1}}); }
             if (r.chance(40)) { es.push_back({{o + 2, o + 2}, {o + 1, o + 1}}); out.count("poly_dangle_in_face"); } }
+    }
+    // "cell set" arrangements: every cell of a W x H lattice is empty, filled, or half filled (one of the four triangles cut off by
+    // a diagonal); the lines are the boundary of the filled region (+ some edges inside it, + a few stray edges outside).  Filled
+    // blobs that meet only at a lattice node, blobs sitting in the bays of concave blobs, blobs inside the holes of other blobs and
+    // pinched outer boundaries (a ring passing twice through a node) are all regular here: these are the inputs on which ring
+    // building and hole assignment have to tell "touches from outside" from "touches from inside".
+    void cellsetEdges(std::vector<PE>& es) {
+        int W = r.range(3, 7), Hh = r.range(3, 7); int fill = r.range(30, 65), half = r.range(0, 45), inner = r.chance(50) ? 0 : r.range(10, 60), stray = r.chance(60) ? 0 : r.range(2, 10);
+        std::vector<std::vector<int>> st((size_t) W, std::vector<int>((size_t) Hh, 0));   // 0 empty 1 full 2 '/'lower-right 3 '/'upper-left 4 '\'lower-left 5 '\'upper-right
+        for (int x = 0; x < W; x++) for (int y = 0; y < Hh; y++) if (r.chance(fill)) st[(size_t) x][(size_t) y] = r.chance(half) ? r.range(2, 5) : 1;
+        enum { B, T, L, R };
+        auto side = [&](int x, int y, int w) -> bool { if (x < 0 || y < 0 || x >= W || y >= Hh) return false; int c = st[(size_t) x][(size_t) y];
+            switch (c) { case 0: return false; case 1: return true; case 2: return w == B || w == R; case 3: return w == T || w == L; case 4: return w == B || w == L; default: return w == T || w == R; } };
+        auto want = [&](bool a, bool b) { return a != b ? true : a ? r.chance(inner) : r.chance(stray); };
+        for (int y = 0; y <= Hh; y++) for (int x = 0; x <= W; x++) {
+            if (x < W && want(side(x, y - 1, T), side(x, y, B))) es.push_back({{x, y}, {x + 1, y}});
+            if (y < Hh && want(side(x - 1, y, R), side(x, y, L))) es.push_back({{x, y}, {x, y + 1}});
+            if (x < W && y < Hh) { int c = st[(size_t) x][(size_t) y]; bool slash;
+                bool draw = c >= 2 ? true : c == 1 ? r.chance(inner / 2) : r.chance(stray / 2);
+                slash = c == 2 || c == 3 ? true : c == 4 || c == 5 ? false : r.chance(50);
+                if (draw) { if (slash) es.push_back({{x, y}, {x + 1, y + 1}}); else es.push_back({{x + 1, y}, {x, y + 1}}); } }
+        }
+    }
+    LineSet polyLines() {
+        typedef PN N; typedef PE E;
+        std::vector<E> es;
+        if (r.chance(45)) { out.count("poly_gen_cellset"); cellsetEdges(es); } else { out.count("poly_gen_lattice"); latticeEdges(es); }
         if (es.empty()) es.push_back({{0, 0}, {1, 0}});
         // chain: repeatedly join two lines at a node of degree exactly 2 (keeps "lines touch only at endpoints")
         std::vector<std::vector<N>> lines; for (auto& e : es) lines.push_back({e.first, e.second});
@@ -509,6 +604,10 @@ struct Gen {
         LineSet ls; double sc = r.chance(50) ? 1.0 : 0.5; double ox = r.chance(50) ? 0 : -3, oy = r.chance(50) ? 0 : 7;
         for (auto& l : lines) { Line q; for (auto& n : l) q.push_back({ox + sc * n.first, oy + sc * n.second}); if (r.chance(50)) std::reverse(q.begin(), q.end()); ls.push_back(q); }
         for (size_t i = ls.size(); i > 1; i--) std::swap(ls[i - 1], ls[r.below(i)]);
+        return ls;
+    }
+    CE polygonize() {
+        LineSet ls = polyLines();
         std::string mode = r.chance(75) ? "f" : "v"; out.count(mode == "f" ? "poly_mode_full" : "poly_mode_valid_only");
         CE c = runPolygonize(mode, ls);
         if (resultInvalid) out.count("poly_valid_only_result_has_edge_adjacent_polygons");
@@ -517,6 +616,7 @@ struct Gen {
             if (st_polys == 0) out.count("poly_case_no_polygon"); if (st_holes > 0) out.count("poly_case_with_hole"); }
         return c;
     }
+    CE holeassign() { LineSet ls = polyLines(); return runHoleAssign(ls); }
 
     // ---- shared paths: simple axis-parallel lattice paths
     typedef std::pair<int, int> N;
@@ -576,6 +676,7 @@ static CE replayLine(const std::string& stream, const std::string& line) {
     if (stream == "node" || stream == "node_fp") { std::string mode = tk.next(); LineSet ls = tk.lineset(); return runNode(mode, ls); }
     if (stream == "polygonize") { std::string mode = tk.next(); tk.next(); LineSet ls = tk.lineset(); return runPolygonize(mode, ls); }
     if (stream == "sharedpaths") { LineSet a = tk.lineset(); tk.bar(); LineSet b = tk.lineset(); return runShared(a, a.size() > 1, b, b.size() > 1); }
+    if (stream == "holeassign") { LineSet ls = tk.lineset(); return runHoleAssign(ls); }
     throw std::runtime_error("unknown stream " + stream);
 }
 
@@ -608,10 +709,14 @@ int main(int argc, char** argv) {
         else if (stream == "node_fp") c = g.node(true);
         else if (stream == "polygonize") c = g.polygonize();
         else if (stream == "sharedpaths") c = g.shared();
+        else if (stream == "holeassign") c = g.holeassign();
         else { std::fprintf(stderr, "unknown stream\n"); return 2; }
         } catch (std::exception& e) { c.c = LASTIN; c.e = std::string("crash:") + e.what(); out.count("harness_caught_exception"); }
         out.emit(c.c, c.e);
-      } }
+      }
+      if (stream == "holeassign" && !DRY) { out.count("ha_holes", st_ha_holes); out.count("ha_shells", st_ha_shells); out.count("ha_queries_hole_x_start", st_ha_queries);
+          out.count("ha_assigned", st_ha_assigned); out.count("ha_candidate_pairs_envelope_covers", st_ha_candidates);
+          out.count("ha_first_vertex_is_vertex_of_candidate", st_ha_firstShared); out.count("ha_vertex_scan_decisive", st_ha_scanDecisive); } }
     GEOS_finish_r(H);
     return 0;
 }
